@@ -12,7 +12,9 @@ Inductive tphase := TWait | TEnc | TGone.
 
 Inductive tin :=
 | TBytes (b : bytes)        (* bytes arrive from the client *)
-| TPeerClose.               (* the client closes or resets *)
+| TPeerClose                (* the client closes or resets *)
+| TAlert.                   (* the TLS layer reports an error that leaves the TCP connection up (the peer's close_notify with the
+                               connection kept open, a warning alert): QSslSocket emits error() and stays connected *)
 
 Inductive tout :=
 | OEncrypted                (* handshake complete: process(socket) is called now *)
@@ -37,6 +39,8 @@ Definition tstep (s : tconn) (i : tin) : tconn * list tout :=
   | TWait, TPeerClose => (mkT TGone (seen s), [ORelease])      (* RemoteHostClosedError -> deleteLater *)
   | TEnc, TBytes b => (s, [OPlain (decrypt (seen s) b)])
   | TEnc, TPeerClose => (mkT TGone (seen s), [ORelease])       (* disconnected -> deleteLater, as for plain TCP *)
+  | TWait, TAlert => (mkT TGone (seen s), [ORelease])          (* an error before the handshake is over -> deleteLater *)
+  | TEnc, TAlert => (s, [])                                    (* the error handler was disconnected by encrypted(): nothing happens *)
   | TGone, _ => (s, [])
   end.
 
@@ -54,7 +58,7 @@ Fixpoint tstate (s : tconn) (ins : list tin) : tconn :=
 
 (* the plain-TCP server: every byte goes straight to the pipeline *)
 Definition plain_run (ins : list tin) : list tout :=
-  flat_map (fun i => match i with TBytes b => [OPlain b] | TPeerClose => [ORelease] end) ins.
+  flat_map (fun i => match i with TBytes b => [OPlain b] | TPeerClose => [ORelease] | TAlert => [] end) ins.
 
 End Engine.
 
